@@ -105,6 +105,8 @@ class FakeSock:
         self.closed = False
         self.shut = False
         self.broken = False
+        self.reset = False        # the peer has reset the connection: address calls raise ENOTCONN from now on (as on Linux)
+        self.default_acc = None   # what send() does once its script is exhausted: None = would block, n = accept up to n bytes
         self.hards = []           # codes of the hard (not would-block) faults this socket has raised
         self.kacc = bytearray()   # bytes the kernel accepted from send()
         self.kdel = bytearray()   # bytes recv() delivered
@@ -139,7 +141,7 @@ class FakeSock:
         self._chk()
         if getattr(self, "dead", False):
             raise OSError(errno.ENOTCONN, os.strerror(errno.ENOTCONN))
-        if (self.broken and self.world.strict_peer) or self.ca is None:
+        if self.reset or (self.broken and self.world.strict_peer) or self.ca is None:
             raise OSError(errno.ENOTCONN, os.strerror(errno.ENOTCONN))
         return self.ca
 
@@ -159,7 +161,7 @@ class FakeSock:
 
     def shutdown(self, how):
         self._chk()
-        if self.broken and self.world.strict_peer:
+        if self.reset or (self.broken and self.world.strict_peer):
             raise OSError(errno.ENOTCONN, os.strerror(errno.ENOTCONN))
         self.shut = True
 
@@ -170,6 +172,11 @@ class FakeSock:
     def send(self, data):
         self._chk()
         if not self.sends:
+            if self.default_acc:
+                n = min(self.default_acc, len(data))
+                self.kacc.extend(bytes(data[:n]))
+                self.calls.append(("send", n))
+                return n
             self.calls.append(("send", "wb"))
             raise self._wb()
         r = self.sends.pop(0)
@@ -410,6 +417,26 @@ def _probe(site, code):
     return OUT_UNEXPECTED   # the method neither raised nor reported one of the documented results
 
 
+def probe_wl_peer(kind, what):
+    """does the wire-log path of send/receive of this class ask the socket for the peer address (and so fail on a
+    connection the peer has reset)?  One real call on a reset fake socket with a WireLog attached."""
+    wl = make_wl()
+    try:
+        hs = [("ok",)] if is_tls(kind) else []
+        obj, s = make_conn(kind, [("acc", 3)], [("d", b"xyz")], hs, wl=wl)
+        s.reset = True
+        try:
+            if what == "send":
+                obj.send(b"abc")
+            else:
+                obj.receive()
+        except OSError:
+            return True
+        return False
+    finally:
+        wl.close()
+
+
 _TABLES = None
 
 
@@ -432,7 +459,7 @@ def _status(fn):
 
 
 def run_conn(case, with_hards=False):
-    """case = (kind, wl, ops, sends, recvs); ops: ("tx", bytes) | ("ss",) | ("sr",) | ("svc",)
+    """case = (kind, wl, ops, sends, recvs); ops: ("tx", bytes) | ("ss",) | ("sr",) | ("svc",) | ("rst",) peer resets
     observation = (steps, final): steps[i] = (status, |kacc|, |txbs|, |rxbs|, cutoff),
     final = (txbs, rxbs, kacc, kdel, wireTx|None, wireRx|None, cutoff)"""
     kind, use_wl, ops, sends, recvs = case
@@ -448,6 +475,9 @@ def run_conn(case, with_hards=False):
                 st = _status(obj.serviceSends)
             elif op[0] == "sr":
                 st = _status(obj.serviceReceives)
+            elif op[0] == "rst":   # the peer resets: whatever is still scripted gets delivered, address calls fail from now on
+                s.reset = True
+                st = "ok"
             elif op[0] == "svc":
                 if kind.startswith("client"):
                     st = _status(obj.service)
@@ -566,10 +596,19 @@ def run_server(case):
 
 
 def run_client(case):
-    """C11 client part. case = (tls, ops); ops: ("reopen",) | ("connect", rc) | ("close",) | ("hs", resp) ...
-       ("connect", rc): next connect_ex returns rc, then serviceConnect(); for tls a handshake response may be given
+    """C11 client part. case = (tls, ops) or (tls, reconnectable, tymeout, ops) (tymeout and ticks in UNITs of virtual tyme);
+    ops: ("reopen",) | ("close",) | ("tick", d) | ("connect", rc, hsresp|None): next connect_ex returns rc (a handshake
+    response may be queued on the current socket), then serviceConnect()
     observation per op: (status, open socket ids, id of client.cs or None, connected)"""
-    tls, ops = case
+    if len(case) == 2:
+        case = (case[0], False, 0, case[1])
+    tls, recon, tmo, ops = case
+    return _run_client(tls, recon, tmo, ops)
+
+
+def _run_client(tls, recon, tmo, ops):
+    from hio.base import tyming
+    tymist = tyming.Tymist(tyme=0.0, tock=UNIT)
     clienting, serving, TClientTls, TRemoterTls = classes()
     world = World()
     mod = _SockMod(world, tls=tls, ha=("127.0.0.1", PORT))
@@ -588,12 +627,16 @@ def run_client(case):
     mod.socket = mk
     with patched(clienting, socket=mod), nowrap():
         if tls:
-            obj = TClientTls(ha=("127.0.0.1", PORT), context=shared_client_context(), certedhost="localhost")
+            obj = TClientTls(ha=("127.0.0.1", PORT), context=shared_client_context(), certedhost="localhost",
+                             tymth=tymist.tymen(), reconnectable=bool(recon), tymeout=tmo * UNIT)
         else:
-            obj = clienting.Client(ha=("127.0.0.1", PORT))
+            obj = clienting.Client(ha=("127.0.0.1", PORT), tymth=tymist.tymen(), reconnectable=bool(recon), tymeout=tmo * UNIT)
         for op in ops:
             k = op[0]
-            if k == "reopen":
+            if k == "tick":
+                tymist.tick(tock=op[1] * UNIT)
+                st = "ok"
+            elif k == "reopen":
                 st = _status(obj.reopen)
             elif k == "close":
                 st = _status(obj.close)
@@ -708,6 +751,8 @@ def gen_fault_code(rng, kind, flavour=None):
         return EPIPE
     if f == "otherfamily":   # the would-block code of the other family: EAGAIN on TLS, want-read on plain
         return rng.choice([EAGAIN] if is_tls(kind) else [WANT_READ, WANT_WRITE, 2, 3])
+    if f == "raise":   # errnos none of the tuples list: the method re-raises them
+        return rng.choice([errno.ENOTCONN, errno.ECONNABORTED, errno.EBADF, errno.EIO, EPIPE])
     if f == "ssl":
         return rng.choice(sorted(SSL_CODES))
     return rng.choice(ALL_CODES)
@@ -770,7 +815,8 @@ def gen_server_ops(rng, tls, focus, tier="quick"):
     live = []
     nsteps = rng.randrange(3, 14)
     faulty = set(rng.sample(range(1, ncas + 1), k=rng.randrange(0, ncas + 1))) if focus == "fault" else set()
-    flav = rng.choice(["conn", "conn", "conn", None, "epipe"])
+    flav = rng.choice(["conn", "conn", "conn", None, "epipe", "raise", "raise"])
+    spread = rng.random() < 0.5   # would-blocks between receive chunks: the script is met over several passes, with output queued
 
     def mkconn(ca):
         fp = 0.0
@@ -780,6 +826,8 @@ def gen_server_ops(rng, tls, focus, tier="quick"):
             fp = rng.choice([0.0, 0.0, 0.1])
         sends = gen_sends(rng, kind, rng.randrange(0, 6), 8, fault_p=fp, flavour=flav)
         recvs = gen_recvs(rng, kind, rng.randrange(0, 6), fault_p=fp, flavour=flav)
+        if spread:
+            recvs = [x for r_ in recvs for x in ((r_, ("f", wouldblock_codes(kind)[0])) if rng.random() < 0.6 else (r_,))]
         hs = []
         if tls:
             m = rng.random()
@@ -1298,3 +1346,136 @@ def run_real_idle(case):
         seen_listed.clear()
         return go()
     return with_retries(wrapped)
+
+
+def run_real_client(case):
+    """C11, client over real sockets.  case = ("realcli", tls, mode, tymeout, ops);  mode: 'refused' (target port bound but not
+    listening), 'hang' (listener whose accept queue is full: connects stay in progress), 'mute' (a listener that never
+    accept()s nor handshakes: TCP connects, a TLS handshake never completes).  reconnectable=True, virtual tyme.
+    ops: ("tick", d) | ("svc",) serviceConnect | ("reopen",) | ("close",).
+    The harness keeps every socket object the client ever held.
+    observation per op: (status, number of sockets ever held, how many of them other than client.cs are still open)"""
+    _, tls, mode, tmo, ops = case
+
+    def go():
+        from hio.base import tyming
+        from hio.core.tcp import clienting
+        held = []
+        base = clienting.ClientTls if tls else clienting.Client
+
+        class TrackingClient(base):
+            def open(self):
+                r = super().open()
+                if self.cs is not None:
+                    held.append(self.cs)
+                return r
+
+            def wrap(self):
+                super().wrap()
+                held.append(self.cs)
+        aux = []
+        client = None
+        out = []
+        try:
+            lst = _socket.socket(_socket.AF_INET, _socket.SOCK_STREAM)
+            aux.append(lst)
+            lst.bind(("127.0.0.1", 0))
+            port = lst.getsockname()[1]
+            if mode in ("hang", "mute"):
+                lst.listen(0 if mode == "hang" else 16)
+            if mode == "hang":     # fill the accept queue so that further SYNs are left unanswered
+                for _ in range(3):
+                    f = _socket.socket(_socket.AF_INET, _socket.SOCK_STREAM)
+                    aux.append(f)
+                    f.setblocking(False)
+                    f.connect_ex(("127.0.0.1", port))
+            tymist = tyming.Tymist(tyme=0.0, tock=UNIT)
+            kw = dict(ha=("127.0.0.1", port), tymth=tymist.tymen(), reconnectable=True, tymeout=tmo * UNIT)
+            if tls:
+                c = cert_paths()
+                kw.update(certedhost="localhost", keypath=c["ckey"], certpath=c["ccert"], cafilepath=c["sca"], certify=ssl.CERT_NONE, hostify=False)
+            client = TrackingClient(**kw)
+            for op in ops:
+                k = op[0]
+                if k == "tick":
+                    tymist.tick(tock=op[1] * UNIT)
+                    st = "ok"
+                elif k == "svc":
+                    st = _status(client.serviceConnect)
+                elif k == "reopen":
+                    st = _status(client.reopen)
+                elif k == "close":
+                    st = _status(client.close)
+                else:
+                    raise core.Infra(f"bad op {op!r}")
+                stray = sum(1 for s in held if s is not client.cs and s.fileno() != -1)
+                out.append((st, len(held), stray))
+            return tuple(out)
+        except OSError as ex:
+            if ex.errno in INFRA_ERRNOS:
+                raise Retry(str(ex))
+            raise
+        finally:
+            if client is not None:
+                try:
+                    client.close()
+                except Exception:
+                    pass
+            for s in held + aux:
+                try:
+                    s.close()
+                except OSError:
+                    pass
+    return with_retries(go)
+
+
+def run_real_client_rst(case):
+    """C10. case = ("realrst", nbytes): a real Client with a WireLog attached is connected to a raw peer that sends nbytes and
+    then resets; the client is serviced until it notices.  observation = (raised, all bytes received, cut off)"""
+    _, nbytes = case
+
+    def go():
+        from hio.core.tcp import clienting
+        wl = make_wl()
+        lst = peer = client = None
+        try:
+            lst = _socket.socket(_socket.AF_INET, _socket.SOCK_STREAM)
+            lst.bind(("127.0.0.1", 0))
+            lst.listen(4)
+            client = clienting.Client(ha=lst.getsockname(), wl=wl)
+            client.reopen()
+            for _ in range(20000):
+                if client.serviceConnect():
+                    break
+            if not client.connected:
+                raise Retry("client could not connect on loopback")
+            lst.settimeout(3.0)
+            peer, _ = lst.accept()
+            data = bytes(i % 251 for i in range(nbytes))
+            peer.settimeout(3.0)
+            peer.sendall(data)
+            rst_close(peer)
+            peer = None
+            wait_readable(client.cs)
+            raised = False
+            for _ in range(60):
+                try:
+                    client.service()
+                except BaseException:
+                    raised = True
+                if client.cutoff or client.cs is None:
+                    break
+                wait_readable(client.cs, 0.5)
+            return (raised, bytes(client.rxbs) == data, bool(client.cutoff))
+        except OSError as ex:
+            if ex.errno in INFRA_ERRNOS or isinstance(ex, TimeoutError):
+                raise Retry(str(ex))
+            raise
+        finally:
+            for x in (peer, lst):
+                if x is not None:
+                    x.close()
+            if client is not None:
+                client.close()
+            wl.close()
+    return with_retries(go)
